@@ -9,6 +9,7 @@ import AHP.Lemmas.BuilderTop
 import AHP.Lemmas.WrapStr
 import AHP.Lemmas.WrapLexFeed
 import AHP.Lemmas.StripIERender
+import AHP.Lemmas.StripIEMulti
 namespace AHP.C02
 open AHP AHP.Spec
 
@@ -614,6 +615,19 @@ theorem stripIE_single_match (s m : Str) (h : ieFindAll s = [m]) :
       NoMatchIn post ∧ stripIE s = addHtmlIfMissing (pre ++ post) :=
   stripIE_of_single_match s m h
 
+/-- **C02g (several conditionals).** The text `g₀ c₁ g₁ … cₖ gₖ` (`segText` / `joinGaps`, Lemmas/StripIEMulti.lean):
+    at every `cᵢ` the pattern matches exactly `cᵢ` (`MatchOK`; by `ieMatch_reading`: opener, body on one line, `-->`,
+    no further `-->` on the rest of the line); the gaps joined contain no marker (cutting a conditional out makes
+    no new one); no marker inside a conditional behind its own opener; no conditional is a proper prefix of
+    another (`Incomp`; equal ones are fine — the first `replace` takes them all).  Then `findall` finds
+    `c₁ … cₖ`, the removals do not disturb one another, and the result is the gaps joined, up to the html-tag rule. -/
+theorem stripIE_several (g0 : Str) (L : Segs) (hne : L ≠ []) (hok : MatchOK L)
+    (hgaps : hasIEMarker (g0 ++ joinGaps L) = false)
+    (hin : ∀ cg ∈ L, hasIEMarker (cg.1.drop 1) = false)
+    (hinc : ∀ a ∈ L, ∀ b ∈ L, Incomp a.1 b.1) :
+    stripIE (g0 ++ segText L) = addHtmlIfMissing (g0 ++ joinGaps L) :=
+  stripIE_segs g0 L hne hok hgaps hin hinc
+
 /-- **C02g (a conditional comment token is dropped).** A token list in the serialiser's image with one comment
     token whose body starts with ws* `[` ws* `if` (one line; no further `-->` on the rest of that line in what
     follows; the marker nowhere else; the html-tag rule not firing): `feed` builds the document of the list
@@ -700,6 +714,26 @@ example : ieFindAll "<!--[if IE]>\n<p>a</p><!--[if IE 6]>b<![endif]-->c\n<!--[IF
     = ["<!--[if IE 6]>b<![endif]-->".toList] := by decide
 example : stripIE "<!--[if IE]>\n<p>a</p><!--[if IE 6]>b<![endif]-->c\n<!--[IF]-->".toList
     = "<!--[if IE]>\n<p>a</p>c\n<!--[IF]-->".toList := by decide
+
+/-- the classic head of a document: three conditionals (one of them downlevel-revealed) carrying the `<html>` start
+    tags, one per line; all three go, `<html>` is put back after the doctype -/
+def classicSegs : Segs :=
+  [("<!--[if lt IE 7]><html class=\"ie6\"><![endif]-->".toList, "\n".toList),
+   ("<!--[if IE 7]><html class=\"ie7\"><![endif]-->".toList, "\n".toList),
+   ("<!--[if gt IE 8]><!--><html><!--<![endif]-->".toList, "\n<head></head><body><p>x</p></body></html>".toList)]
+
+example : stripIE ("<!DOCTYPE html>\n".toList ++ segText classicSegs)
+    = addHtmlIfMissing ("<!DOCTYPE html>\n".toList ++ joinGaps classicSegs) :=
+  stripIE_several _ classicSegs (by decide) ⟨by decide, by decide, by decide, trivial⟩ (by decide) (by decide) (by decide)
+
+example : addHtmlIfMissing ("<!DOCTYPE html>\n".toList ++ joinGaps classicSegs)
+    = "<!DOCTYPE html><html>\n\n\n\n<head></head><body><p>x</p></body></html>".toList := by decide
+
+/-- `Incomp` is needed: the first conditional is a proper prefix of the second, its removal damages the second,
+    which is then not found any more -/
+example : stripIE "<!--[if a]-->\n<!--[if a]--> x -->\n".toList = "\n x -->\n".toList := by decide
+/-- "no marker in the gaps joined" is needed: cutting the conditional out of `<!-` … `-[if y]` makes a new one -/
+example : stripIE "<!-<!--[if x]-->-\n[if y]-->".toList = "<!--\n[if y]-->".toList := by decide
 
 /-- `.*` is greedy: a later `-->` on the same line belongs to the match (`hline` is needed) -/
 example : stripIE "a<!--[if IE]>b<![endif]--> c <!-- d --> e\nf".toList = "a e\nf".toList := by decide
